@@ -1,105 +1,977 @@
-"""C08 — stream samples reach every subscriber exactly once and in device order."""
+"""C08 — stream samples reach every subscriber exactly once and in device order.
+
+Three layers of correspondence (K), all executing the REAL stream thread under the virtual-time runtime
+(harness/vsim.py), so that an exception inside `_stream_thread` really ends the thread (R-C08-2):
+
+ A  `fan sys <initbits> <events>`          abstract frames (UINT32 samples `<chan>.<tag>`), frames put straight on
+                                           `_q_stream`, no receive thread; model: `Fanout.Sys` under the harness schedule
+ B  `fan wire <layout> <user> <initbits> <events>`   the same with real STREAM payloads over random channel layouts
+                                           (types, vdim, mlen, user types): decoder (C04 model) ∘ fan-out
+ C  sessions (extra_checks): connect to the reference device (channels possibly enabled already), both library
+                                           threads running, frames in flight at subscribe / unsubscribe / enable-change /
+                                           stop;start time, stalled stream thread, byte-identical consecutive frames; the
+                                           linearised trace of what happened (arrivals at `_q_stream.put`, iterations at
+                                           `_q_stream.get`, calls) is replayed through the model (`fan sys`, events I/T) and
+                                           the final queue contents are compared.
+The oracle (O) is a per-queue reference written from the property text; for sessions it judges what the device
+SENT against what the queues RECEIVED (must / may / must-not per sample, by virtual send, call and quiesce
+times only — no library internals).
+
+Event language of the lines: see lean/NxsModel/Driver/Fanout.lean.  SCHEDULE of layers A/B: the application
+thread runs without interruption except in `i` (virtual sleep: the stream thread drains `_q_stream` or dies) and `P`
+(`stream_stop`: a thread that has run before is parked in `_q_stream.get` and finishes that get — one more frame —
+before it sees the stop flag; a thread that has never run sees the flag at once).
+"""
 import struct
 from common import Prop, exc_name
-import sessionlib as sl
+import common
+import streamglue as sg
+import streamgen as gen
+
+U32 = (6, 1, 0)
 
 
-def parse_ops(s):
-    return [] if s == "-" else s.split(";")
+# ---------------------------------------------------------------------------------------------- lines
+
+def bits(s):
+    return [] if s == "-" else [c == "1" for c in s]
 
 
-def drive_real(n, ops):
-    """the real NxscopeHandler fan-out driven frame by frame (no threads): returns (queues, ovf, subs, errs)"""
-    from nxslib.nxscope import NxscopeHandler
-    from nxslib.comm import DCommChannelsData
-    from nxslib.dev import Device, DeviceChannel
-    from nxslib.intf.iintf import ICommInterface
-    from nxslib.proto.parse import Parser
-    from nxslib.proto.iframe import DParseFrame, EParseId
+def bitstr(l):
+    return "".join("1" if b else "0" for b in l) or "-"
 
-    class Null(ICommInterface):
-        def start(self): pass
-        def stop(self): pass
-        def drop_all(self): pass
-        def _read(self): return b""
-        def _write(self, data): pass
 
-    nx = NxscopeHandler(Null(), Parser())
-    comm = nx._comm
-    comm._dev = Device(n, 3, 0, [DeviceChannel(i, 6, 1, f"c{i}") for i in range(n)])   # UINT32 x 1
-    comm._channels = DCommChannelsData([False] * n, [False] * n, [0] * n, [0] * n)
-    nx._sub_q = [[] for _ in range(n)]
-    nx._connected = True
-    queues = []
-    errs = []
-    for i, op in enumerate(ops):
-        try:
-            if op[0] == "f":
-                fl, ss = op[1:].split(":")
-                body = bytes([int(fl)])
-                for s in (ss.split(",") if ss else []):
-                    c, v = s.split(".")
-                    body += bytes([int(c)]) + struct.pack("<I", int(v))
-                comm._q_stream.put(DParseFrame(EParseId.STREAM, body))
-                try:
-                    nx._stream_thread()
-                finally:
-                    while not comm._q_stream.empty():
-                        comm._q_stream.get_nowait()
-            elif op[0] == "s":
-                queues.append(nx.stream_sub(int(op[1:])))
-            elif op[0] == "u":
-                k = int(op[1:])
-                if k < len(queues):
-                    nx.stream_unsub(queues[k])
-            elif op[0] == "e":
-                v = [c == "1" for c in op[1:]]
-                if len(v) != n:
-                    raise ValueError
-                comm._channels.en_now = v
-        except Exception as e:
-            errs.append((i, exc_name(e)))
-    got = []
-    for q in queues:
+def parse_layout(s):
+    return [] if s == "-" else [tuple(int(x) for x in c.split(":")) for c in s.split(",")]
+
+
+def parse_user(s):
+    if s == "-":
+        return {}
+    out = {}
+    for u in s.split(";"):
+        ty, dt, items = u.split("/")
+        out[int(ty)] = (int(dt), [(int(i.split(".")[0]), i.split(".")[1]) for i in items.split("+")] if items else [])
+    return out
+
+
+def parse_line(line):
+    """-> dict(kind, layout, user, init, events)"""
+    t = line.split(" ")
+    evs = lambda s: [] if s == "-" else s.split(";")
+    if t[1] == "run":      # legacy corpus / replay form: stream running, every frame processed when it arrives
+        n = int(t[2])
+        out = ["S"]
+        for op in evs(t[3]):
+            out.append(op)
+            if op[0] in "fx":
+                out.append("i")
+        return dict(kind="sys", layout=[U32] * n, user={}, init=[False] * n, events=out)
+    if t[1] == "sys":
+        init = bits(t[2])
+        return dict(kind="sys", layout=[U32] * len(init), user={}, init=init, events=evs(t[3]))
+    if t[1] == "wire":
+        return dict(kind="wire", layout=parse_layout(t[2]), user=parse_user(t[3]), init=bits(t[4]), events=evs(t[5]))
+    raise ValueError(line)
+
+
+def abstract_samples(ev):
+    fl, ss = ev[1:].split(":")
+    return int(fl), [tuple(int(x) for x in s.split(".")) for s in ss.split(",")] if ss else []
+
+
+def payload_of(ev):
+    """STREAM payload of a frame event"""
+    if ev[0] == "w":
+        return common.unhex(ev[1:])
+    if ev[0] == "x":
+        return bytes([0, 0, 1, 2])                      # channel 0, two of the four bytes of a UINT32
+    fl, smp = abstract_samples(ev)
+    body = bytes([fl & 0xFF])
+    for c, v in smp:
+        body += bytes([c & 0xFF]) + struct.pack("<I", v)
+    return body
+
+
+def frame_samples(case, ev):
+    """independent reading of a frame event: [(chan, item)] or None when the decoder must reject the frame.
+    item: the tag (sys) or (tuple of python values, tuple of meta ints) (wire)"""
+    n = len(case["layout"])
+    if ev[0] == "x":
+        return None
+    if ev[0] == "f":
+        _, smp = abstract_samples(ev)
+        return None if any(c >= n for c, _ in smp) else smp
+    payload = common.unhex(ev[1:])
+    if not payload:
+        return []
+    parsed = sg.ref_parse(case["layout"], case["user"], payload)
+    if parsed is None:
+        return None
+    out = []
+    for chan, vals, metas in parsed:
+        ty, vdim, mlen = case["layout"][chan]
+        out.append((chan, (tuple(ref_value(code, raw, ty, case["user"], len(vals)) for code, raw in vals),
+                           tuple(int.from_bytes(m, "little") for m in metas))))
+    return out
+
+
+def ref_value(code, raw, ty, user, natoms):
+    """the python value a sample atom stands for, straight from the wire bytes (independent of nxslib)"""
+    dt = sg.dtype_of(ty, user)
+    frac = sg.frac_of(ty)
+    if dt == sg.CHAR and natoms == 1:
+        return raw.decode("utf-8")
+    if code in "BHIQbhiq":
+        r = int.from_bytes(raw, "little", signed=code.islower())
+        return r / (1 << frac) if frac else r
+    if code in "fd":
+        return struct.unpack("<" + code, raw)[0]
+    if code == "?":
+        return raw != b"\x00"
+    return bytes(raw)
+
+
+# ---------------------------------------------------------------------------- layers A / B: real execution
+
+def drive(case, events=None):
+    """the real NxscopeHandler with its real stream thread (vsim), frames put on `_q_stream`; -> result dict"""
+    import vsim
+    events = case["events"] if events is None else events
+    layout, user, init = case["layout"], case["user"], case["init"]
+    n = len(layout)
+    res = {}
+
+    def scenario(sim):
+        from nxslib.nxscope import NxscopeHandler
+        from nxslib.dev import Device
+        from nxslib.intf.iintf import ICommInterface
+        from nxslib.proto.parse import Parser
+        from nxslib.proto.iframe import DParseFrame, EParseId
+        import queue as realqueue
+
+        class Null(ICommInterface):
+            def start(self): pass
+            def stop(self): pass
+            def drop_all(self): pass
+            def _read(self): return b""
+            def _write(self, data): pass
+
+        parser = Parser(user_types=sg.real_user(user))
+        nx = NxscopeHandler(Null(), parser)
+        comm = nx._comm
+        # the device description exactly as connect() builds it: every channel through the real CHINFO decoder
+        # (the enable byte arrives as an int), the channel state through `_channels_init`
+        chans = [parser.frame_chinfo_decode(
+            DParseFrame(EParseId.CHINFO, bytes([int(init[i]), ty, vdim, 0, mlen]) + b"c%d" % i), i)
+            for i, (ty, vdim, mlen) in enumerate(layout)]
+        comm._dev = Device(n, 0, 0, chans)              # flags 0: no divider, no ACK frames -> requests need no device
+        comm._channels_init(comm._dev)
+        comm.connect = lambda: None                     # the low-level handshake is C06/C09's business ...
+        nx.connect()                                    # ... the high-level connect (subscriber lists) is the real one
+        queues = []
+        qchan = []
+        errs = []
+        for i, ev in enumerate(events):
+            try:
+                k = ev[0]
+                if k in "fxw":
+                    comm._q_stream.put(DParseFrame(EParseId.STREAM, payload_of(ev)))
+                elif k == "i":
+                    vsim.vsleep(0.02)
+                elif k == "s":
+                    c = int(ev[1:])
+                    queues.append(nx.stream_sub(c))
+                    qchan.append(c)
+                elif k == "n":
+                    c = -(int(ev[1:]) + 1)
+                    queues.append(nx.stream_sub(c))
+                    qchan.append(n + c)
+                elif k == "u":
+                    j = int(ev[1:])
+                    # a queue that was never subscribed (foreign / stale): a legal no-op
+                    nx.stream_unsub(queues[j] if j < len(queues) else realqueue.Queue())
+                elif k == "e":
+                    for c, b in enumerate(ev[1:]):
+                        (comm.ch_enable if b == "1" else comm.ch_disable)(c)
+                    nx.channels_write()
+                elif k == "S":
+                    nx.stream_start()
+                elif k == "P":
+                    nx.stream_stop()
+                else:
+                    raise ValueError(ev)
+            except Exception as e:
+                errs.append((i, exc_name(e)))
         groups = []
-        while not q.empty():
-            g = q.get_nowait()
-            groups.append([int(x.data[0]) for x in g])
-        got.append(groups)
-    subs = [[queues.index(q) for q in l] for l in nx._sub_q]
-    ovf = nx._ovf_cntr
-    nx._connected = False
-    comm._dev = None
-    return got, ovf, subs, errs
+        for q in queues:
+            gs = []
+            while not q.empty():
+                gs.append([(tuple(x.data), tuple(x.meta)) for x in q.get_nowait()])
+            groups.append(gs)
+        started = bool(nx._stream_started)
+        res.update(groups=groups, qchan=qchan, ovf=nx._ovf_cntr, errs=errs, started=started,
+                   subs=[[queues.index(q) for q in l if q in queues] for l in nx._sub_q],
+                   dead=bool(started and not nx._thrd.thread_is_alive()), qlen=comm._q_stream.qsize())
+        nx._connected = False
+        nx._thrd.thread_stop()
+        comm._dev = None
+
+    r, sim = vsim.run_sim(scenario, time_limit=5000.0, real_limit=20.0)
+    if isinstance(r, BaseException):
+        raise r
+    res["thread_errors"] = [(name, exc_name(e)) for name, e, _ in sim.errors]
+    return res
 
 
-def fmt(got, ovf, subs, errs):
-    qs = " ".join(f"q{i}=" + "/".join(".".join(map(str, g)) for g in gs) for i, gs in enumerate(got))
-    return f"ok {qs} ovf={ovf} subs=" + ",".join(".".join(map(str, l)) for l in subs) + " errs=" + ".".join(str(i) for i, _ in errs)
+def canon_item(item, ty, vdim, mlen, user):
+    """delivered (data, meta) -> the model's `[v;v],[m;m]` (values rendered from the python objects alone)"""
+    data, meta = item
+    atoms = sg.sample_atoms(ty, vdim, user)
+    dt = sg.dtype_of(ty, user)
+    frac = sg.frac_of(ty)
+    vals = []
+    for j, v in enumerate(data):
+        code = atoms[j][0] if j < len(atoms) else "?"
+        if dt == sg.CHAR and len(data) == 1:
+            vals.append("t:" + sg.hexs(v.encode("utf-8")) if isinstance(v, str) else f"t!:{v!r}")
+        elif code in "BHIQbhiq":
+            if frac:
+                raw = round(v * (1 << frac)) if isinstance(v, float) else None
+                vals.append(f"x:{raw}:{frac}" if raw is not None and raw / (1 << frac) == v else f"x!:{v!r}")
+            else:
+                vals.append(f"i:{v}" if type(v) is int else f"i!:{v!r}")
+        elif code in "fd":
+            w = 4 if code == "f" else 8
+            vals.append(f"{code}:" + format(int.from_bytes(struct.pack("<" + code, v), "little"), f"0{2 * w}x")
+                        if type(v) is float else f"{code}!:{v!r}")
+        elif code == "?":
+            vals.append(f"o:{int(v)}" if type(v) is bool else f"o!:{v!r}")
+        else:
+            vals.append("b:" + sg.hexs(v) if isinstance(v, bytes) else f"b!:{v!r}")
+    return f"[{';'.join(vals)}],[{';'.join(str(int(m)) for m in meta)}]"
 
 
-def gen_ops(rng, n, length):
-    ops = []
+def fmt(case, res):
+    layout, user = case["layout"], case["user"]
+    qs = []
+    for i, gs in enumerate(res["groups"]):
+        if case["kind"] == "sys":
+            qs.append(f"q{i}=" + "/".join(".".join(str(int(it[0][0])) for it in g) for g in gs))
+        else:
+            c = res["qchan"][i]
+            qs.append(f"q{i}=" + "/".join("|".join(canon_item(it, *layout[c], user) for it in g) for g in gs))
+    return ("ok " + " ".join(qs) + f" ovf={res['ovf']} subs=" + ",".join(".".join(map(str, l)) for l in res["subs"])
+            + f" dead={int(res['dead'])} started={int(res['started'])} qlen={res['qlen']} errs="
+            + ".".join(str(i) for i, _ in res["errs"]))
+
+
+# ------------------------------------------------------------------------------------- layers A / B: oracle
+
+def reference(case, events):
+    """the property, per queue, under the harness schedule: what every queue must hold, how many frames must
+    still be waiting, which calls must raise.  Written from the property text; knows nothing of nxslib."""
+    n = len(case["layout"])
+    en = list(case["init"])
+    sub_of, want = [], []
+    pend = []
+    started = parked = False
+    bad_calls = set()
+
+    def process(frame):
+        for q, c in enumerate(sub_of):
+            if c is not None and en[c]:
+                want[q] += [it for ch, it in frame if ch == c]
+
+    for i, ev in enumerate(events):
+        k = ev[0]
+        if k in "fw":
+            pend.append(frame_samples(case, ev))
+        elif k == "i":
+            if started:
+                while pend:
+                    process(pend.pop(0))
+                parked = True
+        elif k in "sn":
+            c = int(ev[1:]) if k == "s" else n - 1 - int(ev[1:])
+            if 0 <= c < n:
+                sub_of.append(c)
+                want.append([])
+            else:
+                bad_calls.add(i)
+        elif k == "u":
+            j = int(ev[1:])
+            if j < len(sub_of):
+                sub_of[j] = None
+        elif k == "e":
+            en = [b == "1" for b in ev[1:]]
+        elif k == "S":
+            if not started:
+                started, parked = True, False
+        elif k == "P":
+            if started:
+                if parked and pend:
+                    process(pend.pop(0))
+                started = parked = False
+    return want, len(pend), bad_calls
+
+
+def judge(case, line=None):
+    """oracle for a frame-level case: the real code against `reference`, on the history up to (excluding) the
+    first frame the decoder must reject (the property quantifies over frames a device may send)"""
+    events = case["events"]
+    cut = next((i for i, ev in enumerate(events) if ev[0] in "fxw" and frame_samples(case, ev) is None), len(events))
+    events = events[:cut]
+    res = drive(case, events)
+    want, pending, bad_calls = reference(case, events)
+    hist = ";".join(events)
+    real_err = [(i, e) for i, e in res["errs"] if i not in bad_calls]
+    if real_err:
+        i, e = real_err[0]
+        return {"key": "call-raises", "what": f"call {events[i]} (event {i}) raised {e}", "expected": "no exception",
+                "observed": e, "history": hist}
+    if res["thread_errors"] or res["dead"]:
+        return {"key": "stream-thread-raises", "what": "the stream thread ended with an exception on a history of well-formed "
+                f"frames: {res['thread_errors']}", "expected": "thread alive", "observed": str(res["thread_errors"]), "history": hist}
+    if case["kind"] == "sys":
+        flat = [[int(it[0][0]) for g in gs for it in g] for gs in res["groups"]]
+    else:
+        flat = [[it for g in gs for it in g] for gs in res["groups"]]
+    if flat != want:
+        q = next(i for i in range(max(len(flat), len(want))) if i >= len(flat) or i >= len(want) or flat[i] != want[i])
+        w, f = (want[q] if q < len(want) else None), (flat[q] if q < len(flat) else None)
+        return {"key": "delivery", "what": f"subscriber queue {q} did not receive exactly the in-order run of its channel's "
+                f"samples: expected {len(w) if w is not None else '-'} samples {w}, received "
+                f"{len(f) if f is not None else '-'} samples {f}", "expected": str(want)[:600], "observed": str(flat)[:600],
+                "history": hist}
+    if res["qlen"] != pending:
+        return {"key": "not-consumed", "what": f"{res['qlen']} stream frames are still waiting in the stream queue, {pending} "
+                "should be (a running stream thread must consume every frame, a stopped one none)",
+                "expected": str(pending), "observed": str(res["qlen"]), "history": hist}
+    if any(len(g) == 0 for gs in res["groups"] for g in gs):
+        return {"key": "empty-group", "what": "an empty group was delivered", "expected": "-", "observed": str(res["groups"])[:300],
+                "history": hist}
+    return None
+
+
+# ------------------------------------------------------------------------------------------- generators
+
+def gen_events(rng, n, init, length, values, wire=None):
+    """a history; `values(c)` draws the tag of a sample of channel c (abstract) ; wire=(layout,user) -> real payloads"""
+    evs = []
     nq = 0
-    val = 0
+    if n and rng.random() < 0.7:
+        # most histories begin with a useful configuration: some queues, some channels enabled
+        for _ in range(rng.randrange(1, 4)):
+            evs.append(f"s{rng.randrange(n)}")
+            nq += 1
+        if rng.random() < 0.7:
+            evs.append("e" + "".join("1" if rng.random() < 0.7 else "0" for _ in range(n)))
+    started = rng.random() < 0.75
+    if started:
+        evs.append("S")
+    auto_i = rng.random() < 0.6          # most histories let the thread run after every frame
+    last_frame = None
     for _ in range(length):
         r = rng.random()
-        if r < 0.2:
-            ops.append(f"s{rng.randrange(n) if rng.random() < 0.95 else n + rng.randrange(3)}")
+        if r < 0.17:
+            if rng.random() < 0.15 and n:
+                evs.append(f"n{rng.randrange(n) if rng.random() < 0.9 else n + rng.randrange(2)}")
+            else:
+                evs.append(f"s{rng.randrange(n) if (n and rng.random() < 0.93) else n + rng.randrange(3)}")
             nq += 1
-        elif r < 0.28 and nq:
-            ops.append(f"u{rng.randrange(nq + 1)}")
-        elif r < 0.4:
-            ops.append("e" + "".join(rng.choice("01") if rng.random() < 0.8 else "1" for _ in range(n)))
+        elif r < 0.25 and nq:
+            evs.append(f"u{rng.randrange(nq + 2)}")
+        elif r < 0.35 and n:
+            evs.append("e" + "".join(rng.choice("01") if rng.random() < 0.8 else "1" for _ in range(n)))
+        elif r < 0.40:
+            evs.append("S")
+        elif r < 0.44:
+            evs.append("P")
+        elif r < 0.52:
+            evs.append("i")
         else:
-            k = rng.choice([0, 0, 1, 1, 2, 3, 5, rng.randrange(0, 12)])
-            ss = []
-            for _ in range(k):
-                ss.append(f"{rng.randrange(n)}.{val}")
-                val += 1
-            ops.append(f"f{rng.choice([0, 0, 0, 1, rng.randrange(256)])}:" + ",".join(ss))
-    return ops
+            if last_frame is not None and rng.random() < 0.2:
+                fr = last_frame                     # byte-identical consecutive frame
+            elif wire is None:
+                rr = rng.random()
+                if rr < 0.025:
+                    fr = "x"
+                else:
+                    k = rng.choice([0, 0, 1, 1, 2, 3, 5, rng.randrange(0, 12)])
+                    ss = []
+                    for _ in range(k):
+                        c = rng.randrange(n) if (n and rng.random() < 0.985) else n + rng.randrange(3)
+                        ss.append(f"{c}.{values(c)}")
+                    fr = f"f{rng.choice([0, 0, 0, 1, rng.randrange(256)])}:" + ",".join(ss)
+            else:
+                layout, user = wire
+                k = rng.choice([0, 1, 1, 2, 3, 5])
+                smps = [gen_wire_sample(rng, layout, user, rng.randrange(n)) for _ in range(k)] if n else []
+                payload = sg.ref_wire(layout, user, smps, flags=rng.choice([0, 0, 1, rng.randrange(256)]))
+                rr = rng.random()
+                if rr < 0.03 and len(payload) > 1:
+                    payload = payload[:rng.randrange(1, len(payload))]
+                elif rr < 0.05 and n < 250:
+                    payload += bytes([n + rng.randrange(3)])
+                elif rr < 0.07:
+                    payload = b""
+                fr = "w" + sg.hexs(payload)
+            evs.append(fr)
+            last_frame = fr
+            if auto_i:
+                evs.append("i")
+    if rng.random() < 0.8:
+        evs.append("i")
+    return evs
 
+
+def gen_wire_sample(rng, layout, user, chan):
+    """a sample whose values survive a python round trip bit for bit (no NaN / inf, valid UTF-8)"""
+    c, vals, meta = gen.gen_sample(rng, layout, user, chan, for_encode=True)
+    out = []
+    for v in vals:
+        if v[:2] == "f:" and (int(v[2:], 16) & 0x7f800000) == 0x7f800000:
+            v = "f:" + format(rng.choice([0x3f800000, 0xc0490fdb, 0x00000001]), "08x")
+        if v[:2] == "d:" and (int(v[2:], 16) & 0x7ff0000000000000) == 0x7ff0000000000000:
+            v = "d:" + format(rng.choice([0x3ff0000000000000, 0xc00921fb54442d18, 0x1]), "016x")
+        out.append(v)
+    return c, out, meta
+
+
+def value_source(rng):
+    """tags: globally unique (position), or drawn from {0,1} (constant / repeating signals)"""
+    mode = rng.choice(["unique", "bits", "bits", "const"])
+    cnt = [0]
+
+    def nxt(c):
+        if mode == "unique":
+            cnt[0] += 1
+            return cnt[0]
+        if mode == "const":
+            return 1
+        return rng.randrange(2)
+    return nxt, mode
+
+
+# ------------------------------------------------------------------------------------- layer C: sessions
+
+def gen_session(rng, kind=None):
+    """a session script (JSON-able dict)"""
+    kind = kind or rng.choice(["mixed", "mixed", "mixed", "inflight", "enabled-at-connect", "stall", "identical", "restart",
+                               "badframe"])
+    n = rng.choice([1, 2, 2, 3, 5, 8])
+    types = [rng.choice([2, 3, 4, 6, 7, 9, 10, 11, 12, 15]) for _ in range(n)]
+    layout = [(t, rng.choice([1, 1, 2, 3]), rng.choice([0, 0, 1, 2, 4])) for t in types]
+    init = [rng.random() < (0.6 if kind == "enabled-at-connect" else 0.3) for _ in range(n)]
+    if kind == "enabled-at-connect" and not any(init):
+        init[rng.randrange(n)] = True
+    flags = rng.choice([3, 3, 2, 1, 0])
+    small = rng.random() < 0.5 or kind == "identical"
+    dev_en = list(init)                    # what the device will have enabled (requests are always acknowledged)
+    new = list(init)
+    ev = []
+    nq = 0
+    started = False
+
+    def frames(k):
+        out = []
+        for _ in range(k):
+            cs = [c for c in range(n) if dev_en[c]]
+            if rng.random() < 0.12:
+                cs = list(range(n))          # a device that is slow to apply a disable: samples of disabled channels
+            ns = rng.choice([0, 1, 1, 2, 3, 4]) if cs else 0
+            smp = []
+            for _ in range(ns):
+                c = rng.choice(cs)
+                smp.append([c, rng.randrange(2) if small else rng.randrange(100)])
+            fr = {"flags": rng.choice([0, 0, 1, rng.randrange(256)]), "smp": smp}
+            if out and rng.random() < 0.25:
+                fr = dict(out[-1])          # byte-identical retransmission
+            out.append(fr)
+        return out
+
+    def commit():
+        nonlocal dev_en
+        dev_en = list(new)
+
+    # the client does NOT (re-)enable channels that are enabled at connect in 'enabled-at-connect' sessions
+    for c in range(n):
+        if rng.random() < 0.5:
+            ev.append(["sub", c])
+            nq += 1
+    if kind != "enabled-at-connect" or rng.random() < 0.3:
+        cs = [c for c in range(n) if not new[c] and rng.random() < 0.6]
+        if cs:
+            for c in cs:
+                new[c] = True
+            ev.append(["en", cs, False])
+    ev.append(["start"])
+    commit()
+    started = True
+    steps = rng.randrange(4, 14)
+    for _ in range(steps):
+        r = rng.random()
+        quiet = kind not in ("inflight",) and rng.random() < 0.55
+        if r < 0.40:
+            ev.append(["frames", frames(rng.choice([1, 1, 2, 3, 5]))])
+        elif r < 0.52:
+            ev.append(["sub", rng.randrange(n)] if rng.random() < 0.9 else ["subneg", rng.randrange(n)])
+            nq += 1
+        elif r < 0.60 and nq:
+            ev.append(["unsub", rng.randrange(nq + 1)])
+        elif r < 0.72:
+            c = rng.randrange(n)
+            wn = rng.random() < 0.7
+            new[c] = not new[c]
+            ev.append(["en" if new[c] else "dis", [c], wn])
+            if wn:
+                commit()
+        elif r < 0.78:
+            ev.append(["write"])
+            commit()
+        elif r < 0.86 and kind in ("restart", "mixed", "inflight", "badframe"):
+            if started:
+                ev.append(["stop"])
+                started = False
+            else:
+                ev.append(["start"])
+                commit()
+                started = True
+        elif r < 0.92 and kind == "stall" and started:
+            ev.append(["stall", rng.choice([0.3, 1.2, 1.6, 1.9])])
+            ev.append(["frames", frames(1)])
+            ev.append(["sleep", 0.05])
+            if rng.random() < 0.7:
+                ev.append(["stop"])
+                ev.append(["start"])
+                commit()
+                ev.append(["frames", frames(rng.choice([1, 2]))])
+            quiet = True
+        elif r < 0.97 and kind == "badframe":
+            # a frame the decoder rejects (unknown channel / truncated sample): the stream thread ends; K only
+            ty, vdim, mlen = layout[0]
+            size = sg.STD[ty][1] * vdim + mlen
+            bad = bytes([0, n + rng.randrange(3)]) if rng.random() < 0.5 else bytes([0, 0]) + bytes(max(0, size - 1))
+            ev.append(["raw", bad.hex()])
+        else:
+            ev.append(["sleep", rng.choice([0.0, 0.005, 0.02, 0.3])])
+        if quiet:
+            ev.append(["quiesce"])
+    if not started:
+        ev.append(["start"])
+        commit()
+    ev.append(["frames", frames(2)])
+    ev.append(["quiesce"])
+    return {"kind": kind, "layout": layout, "init": init, "flags": flags, "events": ev, "small": small}
+
+
+def session_payload(layout, fr):
+    """STREAM payload of a scripted frame + the python values of its samples [(chan, (data, meta))]"""
+    body = bytes([fr["flags"] & 0xFF])
+    smp = []
+    for c, v in fr["smp"]:
+        ty, vdim, mlen = layout[c]
+        code, size, frac = sg.STD[ty]
+        data = []
+        body += bytes([c])
+        for k in range(vdim):
+            x = (v + k) % 100
+            if code in "fd":
+                body += struct.pack("<" + code, float(x))
+                data.append(float(x))
+            else:
+                body += x.to_bytes(size, "little")
+                data.append(x / (1 << frac) if frac else x)
+        mb = bytes((v + 7 * k) & 0xFF for k in range(mlen))
+        body += mb
+        if mlen == 0:
+            meta = ()
+        elif mlen in sg.META_SINGLE:
+            meta = (int.from_bytes(mb, "little"),)
+        else:
+            meta = tuple(mb)
+        smp.append((c, (tuple(data), meta)))
+    return body, smp
+
+
+def run_session(script, preempt_seed=None):
+    """execute a session script on the real library (vsim, reference device); -> dict(log, timeline, delivered, ...)"""
+    import vsim
+    import refdev
+    layout, init, n = script["layout"], script["init"], len(script["layout"])
+    out = {}
+
+    def scenario(sim):
+        from nxslib.nxscope import NxscopeHandler
+        from nxslib.proto.parse import Parser
+        import queue as realqueue
+
+        log = []          # raw linearisation log (K)
+        timeline = []     # (kind, detail, begin, end, err): what an observer outside the library sees (O); begin / end
+        #                   are ORDER stamps of the harness's own actions (virtual times can tie)
+        stamp = [0]
+
+        def tick():
+            stamp[0] += 1
+            return stamp[0]
+        sent = []         # per sent frame: dict(payload, smp, t)
+        matched = [0]
+
+        class StallParser(Parser):
+            stall_next = 0.0
+
+            def frame_stream_decode(self, frame, dev):
+                d, StallParser.stall_next = StallParser.stall_next, 0.0
+                if d:
+                    vsim.vsleep(d)
+                return super().frame_stream_decode(frame, dev)
+
+        class RecQueue(vsim.VQueue):
+            def put(self, item, block=True, timeout=None):
+                k = next((j for j in range(matched[0], len(sent)) if sent[j]["payload"] == bytes(item.data)), None)
+                if k is not None:
+                    matched[0] = k + 1
+                item._c08_idx = k
+                log.append(("arrive", k))
+                super().put(item, block, timeout)
+
+            def get(self, block=True, timeout=None):
+                item = super().get(block, timeout)
+                who = sim.cur.name if sim.cur is not None else "?"
+                log.append(("take" if who == "stream" else "drop", getattr(item, "_c08_idx", None)))
+                return item
+
+        chans = [dict(en=bool(init[i]), type=ty, vdim=vdim, div=0, mlen=mlen, name=f"c{i}") for i, (ty, vdim, mlen) in enumerate(layout)]
+        dev = refdev.RefDevice(chans, flags=script["flags"])
+        r = __import__("random").Random(script.get("chunk_seed", 0))
+        link = refdev.make_link(sim, dev, chunker=(lambda k: r.randrange(1, k + 1)) if script.get("chunk_seed") else None)
+        nx = NxscopeHandler(link, StallParser())
+        comm = nx._comm
+        nx.connect()
+        comm._q_stream = RecQueue()
+        real_chk = comm.ch_is_enabled
+
+        def chk(chan):
+            v = real_chk(chan)
+            if sim.cur is not None and sim.cur.name == "stream":
+                log.append(("chk", chan, v))
+            return v
+        comm.ch_is_enabled = chk
+        queues, qchan = [], []
+        new = list(init)
+        started = False
+
+        def call(kind, detail, fn, rec=None):
+            t0 = tick()
+            err = None
+            try:
+                fn()
+            except Exception as e:
+                err = exc_name(e)
+            if rec is not None and err is None:
+                for x in rec():
+                    log.append(x)
+            timeline.append((kind, detail, t0, tick(), err))
+
+        for e in script["events"]:
+            k = e[0]
+            if k == "frames":
+                for fr in e[1]:
+                    payload, smp = session_payload(layout, fr)
+                    sent.append({"payload": payload, "smp": smp, "t": tick(), "vt": sim.now, "flags": fr["flags"]})
+                    dev._send(refdev.STREAM, payload)
+            elif k == "raw":
+                sent.append({"payload": bytes.fromhex(e[1]), "smp": None, "t": tick(), "vt": sim.now, "flags": 0})
+                dev._send(refdev.STREAM, bytes.fromhex(e[1]))
+            elif k in ("sub", "subneg"):
+                c = e[1] if k == "sub" else -(e[1] + 1)
+
+                def do(c=c):
+                    queues.append(nx.stream_sub(c))
+                    qchan.append(c % n)
+                call("sub", c % n, do, lambda k=k, e=e: [("api", ("s%d" if k == "sub" else "n%d") % e[1])])
+            elif k == "unsub":
+                j = e[1]
+                q = queues[j] if j < len(queues) else realqueue.Queue()
+                call("unsub" if j < len(queues) else "unsub-foreign", j, lambda q=q: nx.stream_unsub(q),
+                     lambda j=j: [("api", f"u{j}" if j < len(queues) else "u99")])
+            elif k in ("en", "dis"):
+                cs, wn = e[1], e[2]
+                for c in cs:
+                    new[c] = (k == "en")
+                fn = (nx.ch_enable if k == "en" else nx.ch_disable)
+                arg = cs[0] if len(cs) == 1 else cs
+                if wn:
+                    call("commit", list(new), lambda: fn(arg, True), lambda: [("api", "e" + bitstr(new))])
+                else:
+                    call("buffer", list(new), lambda: fn(arg))
+            elif k == "write":
+                call("commit", list(new), nx.channels_write, lambda: [("api", "e" + bitstr(new))])
+            elif k == "start":
+                if not started:
+                    call("start", list(new), nx.stream_start, lambda: [("api", "e" + bitstr(new)), ("api", "S")])
+                    started = True
+                else:
+                    call("start-again", None, nx.stream_start)
+            elif k == "stop":
+                if started:
+                    call("stop", None, nx.stream_stop, lambda: [("api", "T")])
+                    started = False
+                else:
+                    call("stop-again", None, nx.stream_stop)
+            elif k == "stall":
+                StallParser.stall_next = e[1]
+            elif k == "sleep":
+                vsim.vsleep(e[1])
+            elif k == "quiesce":
+                t0 = tick()
+                vsim.vsleep(2.5)
+                timeline.append(("quiesce", None, t0, tick(), None))
+            else:
+                raise ValueError(e)
+        delivered = []
+        for q in queues:
+            items = []
+            while not q.empty():
+                items += [(tuple(x.data), tuple(x.meta)) for x in q.get_nowait()]
+            delivered.append(items)
+        live = [t.name for t in sim.live_tasks()]
+        out.update(log=list(log), timeline=timeline, sent=sent, delivered=delivered, qchan=qchan,
+                   qlen=comm._q_stream.qsize(), started=started, dead=bool(nx._stream_started and not nx._thrd.thread_is_alive()),
+                   subs=[[queues.index(q) for q in l if q in queues] for l in nx._sub_q],
+                   stream_threads=live.count("stream"))
+        nx.disconnect()
+        StallParser.stall_next = 0.0
+
+    r, sim = vsim.run_sim(scenario, time_limit=5000.0, real_limit=30.0)
+    out["errors"] = [(name, exc_name(e)) for name, e, _ in sim.errors]
+    if isinstance(r, BaseException):
+        out["failure"] = repr(r)
+    return out
+
+
+def session_trace(script, res):
+    """the recorded log as a `fan sys` line + tag table.  Linearisation (see Fanout.lean): a frame takes effect when
+    the stream thread fans it out; sub/unsub made while a frame is being processed go in front of it; an enable
+    change between the enabled-tests of two samples splits the frame there."""
+    sent = res["sent"]
+    tags = {}            # tag -> (data, meta)
+    frame_txt = {}       # frame index -> list of (chan, tag)
+    g = 0
+    for k, fr in enumerate(sent):
+        if fr["smp"] is None:
+            frame_txt[k] = None
+            continue
+        l = []
+        for c, item in fr["smp"]:
+            tags[g] = item
+            l.append((c, g))
+            g += 1
+        frame_txt[k] = l
+    log = res["log"]
+    # pass 1: per taken frame, the API events that fall inside its processing window and the split points
+    takes = {}           # position in log of a take -> dict(idx, subs=[...], splits=[(pos, ev)])
+    cur = None
+    consumed_api = set()
+    for p, x in enumerate(log):
+        if x[0] == "take":
+            cur = {"idx": x[1], "pos": 0, "n": len(frame_txt.get(x[1]) or []), "subs": [], "splits": []}
+            takes[p] = cur
+        elif x[0] == "chk" and cur is not None:
+            cur["pos"] += 1
+        elif x[0] == "api" and cur is not None and cur["pos"] < cur["n"]:
+            if x[1][0] in "snu":
+                cur["subs"].append(x[1])
+                consumed_api.add(p)
+            elif x[1][0] == "e":
+                cur["splits"].append((cur["pos"], x[1]))
+                consumed_api.add(p)
+            # S / T cannot happen while a frame is in progress (stop joins the thread)
+    split_of = {t["idx"]: t for t in takes.values() if t["splits"]}
+    evs = []
+
+    def ftxt(flags, part):
+        return f"f{flags}:" + ",".join(f"{c}.{t}" for c, t in part)
+
+    for p, x in enumerate(log):
+        if x[0] == "arrive":
+            k = x[1]
+            if k is None:
+                evs.append("x")                     # a frame the device never sent: let the model die on it
+            elif frame_txt[k] is None:
+                evs.append("x")
+            elif k in split_of:
+                cuts = [0] + [pos for pos, _ in split_of[k]["splits"]] + [len(frame_txt[k])]
+                for j in range(len(cuts) - 1):
+                    evs.append(ftxt(sent[k]["flags"] if j == 0 else 0, frame_txt[k][cuts[j]:cuts[j + 1]]))
+            else:
+                evs.append(ftxt(sent[k]["flags"], frame_txt[k]))
+        elif x[0] == "take":
+            t = takes[p]
+            evs += t["subs"]
+            evs.append("I")
+            for _, e in t["splits"]:
+                evs.append(e)
+                evs.append("I")
+        elif x[0] == "api" and p not in consumed_api:
+            evs.append(x[1])
+    return "fan sys " + bitstr(script["init"]) + " " + (";".join(evs) or "-"), tags
+
+
+def session_oracle(script, res):
+    """what the device sent against what the queues received, from send / call / quiesce times only"""
+    if res.get("failure"):
+        return {"key": "session-failure", "what": "the streaming session did not complete: " + res["failure"],
+                "expected": "-", "observed": res["failure"]}
+    tl = res["timeline"]
+    n = len(script["layout"])
+    bad_t = min([fr["t"] for fr in res["sent"] if fr["smp"] is None], default=float("inf"))
+    if res["errors"] and bad_t == float("inf"):
+        return {"key": "stream-thread-raises", "what": f"a library thread ended with an exception: {res['errors']}",
+                "expected": "no exception", "observed": str(res["errors"])}
+    for kind, detail, t0, t1, err in tl:
+        if err:
+            return {"key": "call-raises", "what": f"{kind} {detail} raised {err}", "expected": "no exception", "observed": err}
+    quiesces = [(t0, t1) for kind, _, t0, t1, _ in tl if kind == "quiesce"]
+    end = max([t1 for _, _, _, t1, _ in tl] + [0.0])
+    # intervals in which the stream is certainly started
+    started_iv = []
+    s0 = None
+    for kind, _, t0, t1, _ in tl:
+        if kind == "start":
+            s0 = t1
+        elif kind == "stop" and s0 is not None:
+            started_iv.append((s0, t0))
+            s0 = None
+    if s0 is not None:
+        started_iv.append((s0, float("inf")))
+    commits = [(t0, t1, vec) for kind, vec, t0, t1, _ in tl if kind in ("commit", "start")]
+
+    def enabled_state(c, a, b):
+        """True / False if channel c is certainly enabled / disabled during all of [a, b], else None"""
+        v = bool(script["init"][c])
+        for t0, t1, vec in commits:
+            if t1 <= a:
+                v = bool(vec[c])
+            elif t0 <= b:
+                if bool(vec[c]) != v:
+                    return None
+        return v
+
+    subs = [(d, t0, t1) for kind, d, t0, t1, err in tl if kind == "sub" and not err]
+    unsubs = {d: (t0, t1) for kind, d, t0, t1, _ in reversed(tl) if kind == "unsub"}
+    for q, (c, sb, se) in enumerate(subs):
+        ub, ue = unsubs.get(q, (float("inf"), float("inf")))
+        cand = []      # (label, item) of every sample of channel c the device sent, in order
+        for fr in res["sent"]:
+            if fr["smp"] is None:
+                continue
+            ts = fr["t"]
+            tq = next((t1 for t0, t1 in quiesces if t0 >= ts), None)
+            for ch, item in fr["smp"]:
+                if ch != c:
+                    continue
+                if ts >= bad_t or tq is None:
+                    lab = "may"
+                else:
+                    en = enabled_state(c, ts, tq)
+                    subscribed = True if (se <= ts and ub >= tq) else (False if (sb >= tq or ue <= ts) else None)
+                    running = any(a <= ts and tq <= b for a, b in started_iv)
+                    if not running:
+                        lab = "may"      # not processed for certain before the quiesce: it waits in the stream queue
+                    elif en is False or subscribed is False:
+                        lab = "not"
+                    elif en is True and subscribed is True:
+                        lab = "must"
+                    else:
+                        lab = "may"
+                cand.append((lab, item))
+        got = res["delivered"][q]
+        # increasing matching of `got` into `cand`: every must used, no not used, equal values
+        m = len(cand)
+        prev = [True] + [False] * m
+        for j in range(1, m + 1):
+            prev[j] = prev[j - 1] and cand[j - 1][0] != "must"
+        for i in range(1, len(got) + 1):
+            curr = [False] * (m + 1)
+            for j in range(1, m + 1):
+                ok = curr[j - 1] and cand[j - 1][0] != "must"
+                if not ok and prev[j - 1] and cand[j - 1][0] != "not" and cand[j - 1][1] == got[i - 1]:
+                    ok = True
+                curr[j] = ok
+            prev = curr
+        if not prev[m]:
+            musts = [it for lab, it in cand if lab == "must"]
+            return {"key": "session-delivery",
+                    "what": f"queue {q} (channel {c}, subscribed at step {se}"
+                            + (f", unsubscribed at step {ub}" if ub != float("inf") else "")
+                            + f") received {len(got)} samples {got[:40]}; the device sent for that channel "
+                            f"{[(lab, it) for lab, it in cand][:60]} (must = sent, subscribed, enabled and processed-by-quiesce "
+                            f"for certain; not = certainly not subscribed / not enabled): there is no in-order, duplicate-free "
+                            f"assignment of the received samples to the sent ones that uses every 'must' ({len(musts)}) and no 'not'",
+                    "expected": str(musts)[:500], "observed": str(got)[:500]}
+    if res["stream_threads"] > 1:
+        return {"key": "two-stream-threads", "what": f"{res['stream_threads']} stream threads are alive at the end of the session",
+                "expected": "1", "observed": str(res["stream_threads"])}
+    return None
+
+
+def session_check(script):
+    """-> (violation dict | None, correspondence disagreement str | None, stats)"""
+    res = run_session(script)
+    v = session_oracle(script, res)
+    if v:
+        v["script"] = script
+        v["case"] = "session " + script["kind"]
+    dis = None
+    if not res.get("failure"):
+        line, tags = session_trace(script, res)
+        try:
+            mo = common.driver_run([line])[0]
+        except Exception as e:      # no model driver (it does not build on this tree): the oracle alone judges
+            return v, None, res
+        want = model_queues(mo)
+        if want is None:
+            dis = f"model rejected the trace: {mo} for {line[:300]}"
+        else:
+            qs, dead, qlen = want
+            exp = [[tags[t] for t in l] for l in qs]
+            if exp != res["delivered"] or dead != res["dead"] or qlen != res["qlen"]:
+                dis = (f"session trace {line[:1500]} : model queues {exp} dead={dead} qlen={qlen}; real queues {res['delivered']} "
+                       f"dead={res['dead']} qlen={res['qlen']}")
+    return v, dis, res
+
+
+def model_queues(out):
+    if not out.startswith("ok"):
+        return None
+    qs = []
+    dead = qlen = None
+    for part in out.split(" ")[1:]:
+        if part.startswith("q") and "=" in part and part[1:part.index("=")].isdigit():
+            body = part.split("=", 1)[1]
+            qs.append([int(t) for g in body.split("/") if g for t in g.split(".")])
+        elif part.startswith("dead="):
+            dead = part[5:] == "1"
+        elif part.startswith("qlen="):
+            qlen = int(part[5:])
+    return qs, dead, qlen
+
+
+R3M2_SCRIPT = {"kind": "stall", "layout": [U32], "init": [False], "flags": 3, "small": False, "events": [
+    ["sub", 0], ["en", [0], False], ["start"], ["frames", [{"flags": 0, "smp": [[0, 1], [0, 2]]}]], ["quiesce"],
+    ["stall", 1.6], ["frames", [{"flags": 0, "smp": [[0, 3], [0, 4]]}]], ["sleep", 0.05], ["stop"], ["start"],
+    ["frames", [{"flags": 0, "smp": [[0, 5], [0, 6]]}]], ["quiesce"]]}
+R3M1_SCRIPT = {"kind": "enabled-at-connect", "layout": [U32, U32], "init": [True, False], "flags": 3, "small": False, "events": [
+    ["sub", 0], ["sub", 1], ["en", [1], False], ["start"],
+    ["frames", [{"flags": 0, "smp": [[0, 1], [1, 11], [0, 2], [1, 12]]}]], ["quiesce"]]}
+BACKLOG_SCRIPT = {"kind": "inflight", "layout": [U32], "init": [True], "flags": 3, "small": True, "events": [
+    ["sub", 0], ["start"], ["frames", [{"flags": 0, "smp": [[0, 1]]}, {"flags": 0, "smp": [[0, 1]]}, {"flags": 0, "smp": [[0, 0]]},
+                                      {"flags": 0, "smp": [[0, 0]]}, {"flags": 0, "smp": [[0, 1], [0, 1]]}]], ["quiesce"]]}
+
+
+# ----------------------------------------------------------------------- schedules: concurrent unsubscribe
 
 def concurrent_unsub(seed):
     import random
@@ -161,152 +1033,146 @@ def concurrent_unsub(seed):
     return None
 
 
+# ------------------------------------------------------------------------------------------------- Prop
+
 class C08(Prop):
     id = "C08"
     lean_module = "NxsModel.Props.C08"
-    rule = ("histories of stream frames (0..11 samples over random channels, flags incl. overflow, frames with no samples or "
-            "only foreign samples), subscribe / unsubscribe (several queues per channel, invalid channels) and enable-vector "
-            "changes, executed on the real NxscopeHandler fan-out (stream-thread body driven frame by frame) and, in "
-            "extra_checks, in whole sessions under the virtual-time runtime with the reference device streaming; queue "
-            "contents (groups), subscriber lists and overflow counter compared with the model; distinct = distinct line; "
-            "non-trivial = history with at least one delivered group")
+    rule = ("A: histories of stream frames put on the stream queue (0..11 samples over random channels, tags unique or drawn "
+            "from {0,1} / constant, byte-identical consecutive frames, flags incl. overflow, frames without samples or with only "
+            "foreign samples, frames the decoder rejects: unknown channel, truncated sample), subscribe (also negative index, "
+            "invalid channel) / unsubscribe (also twice, also a foreign queue) / enable-vector changes (real channels_write) / "
+            "stream_start / stream_stop with frames waiting, on devices with 0..8 and 40 channels, some enabled at connect; "
+            "executed with the REAL stream thread under the virtual-time runtime; queue contents (groups), subscriber lists, "
+            "overflow counter, thread-dead flag, frames still waiting and raising calls compared with the model. "
+            "B: the same with real payloads over random layouts (18 standard types, user types, vdim, mlen). "
+            "C (extra_checks): whole sessions against the reference device, trace replayed through the model. "
+            "distinct = distinct line; non-trivial = history with at least one delivered group")
     assumptions = ["lock-level atomicity of sub/unsub and the fan-out (both under the queue lock: C12 lock table); "
-                   "pre-emption inside a critical section and queue.Queue internals are outside the model"]
+                   "pre-emption inside a critical section and queue.Queue internals are outside the model",
+                   "the enabled test is per sample, outside the queue lock: executions in which the enable vector changes "
+                   "inside a frame correspond to the history with the frame split there (Props/C08 frame_split)",
+                   "'since the subscription' = processed since the subscription: frames waiting in the stream queue at "
+                   "subscribe time are delivered to the new queue; stream_start does not drain the stream queue",
+                   "a frame the decoder rejects ends the stream thread (no delivery until stream_stop; stream_start): the "
+                   "oracle judges histories up to the first such frame only; the model is compared on all of them"]
 
     def cases(self, rng, tier):
         T = tier == "thorough"
-        for _ in range(2500 if T else 500):
-            n = rng.choice([1, 2, 3, 4, 8])
-            yield f"fan run {n} {';'.join(gen_ops(rng, n, rng.randrange(1, 30)))}", "random"
-        # the historical defect F9 and neighbours
+        for it in range(2000 if T else 420):
+            n = rng.choice([0, 1, 1, 2, 2, 3, 4, 8, 40] if it % 9 == 0 else [1, 2, 3, 4, 8])
+            init = [rng.random() < 0.35 for _ in range(n)] if rng.random() < 0.6 else [False] * n
+            values, mode = value_source(rng)
+            evs = gen_events(rng, n, init, rng.randrange(1, 30), values)
+            yield f"fan sys {bitstr(init)} {';'.join(evs) or '-'}", "sys-" + mode
+        for it in range(600 if T else 110):
+            user = gen.gen_user(rng)
+            layout = gen.gen_layout(rng, user, nmax=6)
+            n = len(layout)
+            init = [rng.random() < 0.5 for _ in range(n)]
+            evs = gen_events(rng, n, init, rng.randrange(1, 16), None, wire=(layout, user))
+            yield f"fan wire {sg.layout_str(layout)} {sg.user_str(user)} {bitstr(init)} {';'.join(evs) or '-'}", "wire"
+        # the historical defect F9 and neighbours; the reviewer's histories
         for n in (1, 2, 3):
-            yield f"fan run {n} s0;e{'1' * n};f0:;f0:0.1;f1:;f0:0.2", "empty-frames"
-            yield f"fan run {n} e{'1' * n};s0;f0:0.1;f0:;f0:;f0:0.2;s0;f0:0.3", "empty-frames"
-            yield f"fan run {n} f0:;f0:;s0", "empty-first"
+            one = "1" * n
+            yield f"fan sys {'0' * n} S;s0;e{one};f0:;i;f0:0.1;i;f1:;i;f0:0.2;i", "empty-frames"
+            yield f"fan sys {'0' * n} S;e{one};s0;f0:0.1;i;f0:;i;f0:;i;f0:0.2;i;s0;f0:0.3;i", "empty-frames"
+            yield f"fan sys {'0' * n} S;f0:;i;f0:;i;s0", "empty-first"
+            yield f"fan sys {one} S;s0;f0:0.1;i;f0:0.1;i;f0:0.1;f0:0.1;i", "identical-frames"
+            yield f"fan sys {one} s0;S;i;f0:0.1;f0:0.2;f0:0.3;P;f0:0.4;S;i", "backlog"
+            yield f"fan sys {one} s0;f0:0.1;f0:0.2;S;i;u0;u0;u5;f0:0.3;i", "backlog"
+        yield "fan sys 11 S;s0;f0:0.1;i;f0:7.2;i;f0:0.3;i", "dead"                    # R-C08-2
+        yield "fan sys 11 S;s0;f0:0.1;i;x;i;f0:0.3;i;s1;u0;P;S;i;f0:0.4,1.5;i", "dead"
+        yield "fan sys 10 s0;s1;e11;S;f0:0.1,1.11,0.2,1.12;i", "enabled-at-connect"       # C08-r3m1
+        yield "fan sys 111 n0;n2;n3;S;f0:0.1,2.2;i", "negative-index"
 
     def impl(self, line):
-        t = line.split(" ")
-        return fmt(*drive_real(int(t[2]), parse_ops(t[3])))
+        case = parse_line(line)
+        return fmt(case, drive(case))
 
     def nontrivial(self, line, out):
-        return any(c.isdigit() for part in out.split(" ")[1:] if part.startswith("q") for c in part.split("=", 1)[1])
+        return any(p.startswith("q") and "=" in p and p.split("=", 1)[1] != "" for p in out.split(" ")[1:]
+                   if not p.startswith("qlen"))
 
     def oracle(self, line, impl_out=None):
-        t = line.split(" ")
-        n, ops = int(t[2]), parse_ops(t[3])
-        got, ovf, subs, errs = drive_real(n, ops)
-        # independent per-queue specification
-        enabled = [False] * n
-        sub_of = []          # queue -> channel or None
-        want = []
-        bad_ops = set()
-        for i, op in enumerate(ops):
-            if op[0] == "s":
-                c = int(op[1:])
-                if c >= n:
-                    bad_ops.add(i)
-                    continue
-                sub_of.append(c)
-                want.append([])
-            elif op[0] == "u":
-                k = int(op[1:])
-                if k < len(sub_of):
-                    sub_of[k] = None
-            elif op[0] == "e":
-                enabled = [c == "1" for c in op[1:]]
-            else:
-                fl, ss = op[1:].split(":")
-                smp = [tuple(int(x) for x in s.split(".")) for s in ss.split(",")] if ss else []
-                for q, c in enumerate(sub_of):
-                    if c is not None and enabled[c]:
-                        want[q] += [v for ch, v in smp if ch == c]
-        real_err = [i for i, _ in errs if i not in bad_ops]
-        if real_err:
-            return {"key": "stream-thread-raises", "what": f"the stream thread body raised on op {ops[real_err[0]]}: {dict(errs)[real_err[0]]}",
-                    "expected": "no exception", "observed": dict(errs)[real_err[0]], "history": ops}
-        flat = [[v for g in gs for v in g] for gs in got]
-        if flat != want:
-            return {"key": "delivery", "what": "a subscriber queue did not receive exactly the in-order run of its channel's samples",
-                    "expected": str(want), "observed": str(flat), "history": ops}
-        if any(len(g) == 0 for gs in got for g in gs):
-            return {"key": "empty-group", "what": "an empty group was delivered", "expected": "-", "observed": str(got)}
-        return None
+        case = parse_line(line)
+        v = judge(case)
+        if v and len(case["events"]) > 3:
+            # greedy shrink of the history (same violation key), bounded
+            evs = list(case["events"])
+            budget = 120
+            i = len(evs) - 1
+            while i >= 0 and budget > 0:
+                trial = evs[:i] + evs[i + 1:]
+                budget -= 1
+                try:
+                    w = judge(dict(case, events=trial))
+                except Exception:
+                    w = None
+                if w and w.get("key") == v.get("key"):
+                    evs, v = trial, w
+                i -= 1
+            v["minimal_history"] = ";".join(evs)
+            v["original_case"] = line
+            t = line.split(" ")
+            v["case"] = (f"fan sys {bitstr(case['init'])} " if case["kind"] == "sys" else " ".join(t[:5]) + " ") + ";".join(evs)
+        return v
+
+    def search_cases(self, rng):
+        for it in range(300):
+            n = rng.choice([1, 2, 3])
+            init = [rng.random() < 0.5 for _ in range(n)]
+            values, mode = value_source(rng)
+            yield f"fan sys {bitstr(init)} {';'.join(gen_events(rng, n, init, rng.randrange(4, 40), values))}", "search"
+
+    def sessions(self, rng, count, ev=None):
+        """run `count` generated sessions + the fixed ones; -> (violations, disagreements)"""
+        viol, dis = [], []
+        scripts = [R3M1_SCRIPT, R3M2_SCRIPT, BACKLOG_SCRIPT]
+        kinds = {}
+        for _ in range(count):
+            s = gen_session(rng)
+            if rng.random() < 0.5:
+                s["chunk_seed"] = rng.randrange(1, 1 << 20)
+            scripts.append(s)
+        for s in scripts:
+            kinds[s["kind"]] = kinds.get(s["kind"], 0) + 1
+            v, d, res = session_check(s)
+            if v:
+                viol.append(v)
+            if d:
+                dis.append(d)
+            if len(viol) >= 3:
+                break
+        if ev is not None:
+            ev["coverage"]["streaming_sessions"] = kinds
+        return viol, dis
 
     def deep_search(self, rng):
-        """schedules: an application thread unsubscribes / subscribes while the stream thread is fanning out
-        (pre-emption at every lock and queue operation); every queue that stays subscribed must still get a
-        gap-free run"""
-        out = []
+        """sessions (frames in flight, enabled at connect, stalled thread, stop/start) and schedules: an application
+        thread unsubscribes while the stream thread is fanning out (pre-emption at every lock and queue operation)"""
+        out, _ = self.sessions(rng, 60)
+        if out:
+            return out[:2]
         for seed in range(150):
             v = concurrent_unsub(seed)
             if v:
-                out.append(v)
-                break
-        return out
+                return [v]
+        return []
 
     def replay(self, obj):
         if obj.get("key") == "concurrent-delivery":
             return concurrent_unsub(obj["seed"])
+        if "script" in obj:
+            return session_check(obj["script"])[0]
         return self.oracle(obj["case"])
 
     def extra_checks(self, rng, tier, ev):
-        """whole sessions under vsim: the reference device streams, real receive + stream threads deliver"""
-        import vsim
-        import refdev
-        viol = []
-        runs = 0
-        for it in range(40 if tier == "thorough" else 8):
-            n = rng.choice([2, 3, 5])
-            res = {}
-
-            def scenario(sim, n=n, seed=rng.randrange(1 << 30)):
-                import random
-                r = random.Random(seed)
-                from nxslib.nxscope import NxscopeHandler
-                from nxslib.proto.parse import Parser
-                chans = [dict(en=False, type=6, vdim=1, div=0, mlen=0, name=f"c{i}") for i in range(n)]
-                dev = refdev.RefDevice(chans, flags=3)
-                link = refdev.make_link(sim, dev, chunker=lambda k: r.randrange(1, k + 1))
-                nx = NxscopeHandler(link, Parser())
-                nx.connect()
-                en = sorted(r.sample(range(n), r.randrange(1, n + 1)))
-                nx.ch_enable(en)
-                qs = [(c, nx.stream_sub(c)) for c in [r.randrange(n) for _ in range(r.randrange(1, 5))]]
-                nx.stream_start()
-                sent = {c: [] for c in range(n)}
-                for k in range(r.randrange(3, 15)):
-                    cn = dev.stream_cntr
-                    dev.stream_tick()
-                    for c in en:
-                        sent[c].append(cn)
-                    if r.random() < 0.3:
-                        vsim.vsleep(0.05)
-                vsim.vsleep(3.0)
-                out = []
-                for c, q in qs:
-                    vals = []
-                    while not q.empty():
-                        vals += [int(x.data[0]) for x in q.get_nowait()]
-                    out.append((c, vals))
-                nx.disconnect()
-                res["out"] = out
-                res["sent"] = sent
-                res["en"] = en
-
-            rr, sim = vsim.run_sim(scenario)
-            runs += 1
-            if isinstance(rr, BaseException) or sim.errors:
-                viol.append({"key": "session-stream-failure", "what": "streaming session failed: " + repr(rr) + repr([(a, repr(b)) for a, b, _ in sim.errors]),
-                             "expected": "-", "observed": "-"})
-                continue
-            for c, vals in res["out"]:
-                want = res["sent"][c] if c in res["en"] else []
-                if vals != want:
-                    viol.append({"key": "session-delivery", "what": f"queue of channel {c} received {vals}, device sent {want}",
-                                 "expected": str(want), "observed": str(vals)})
-        ev["coverage"]["streaming_sessions"] = runs
+        """layer C + schedules"""
+        T = tier == "thorough"
+        viol, dis = self.sessions(rng, 150 if T else 24, ev)
         # schedules: unsubscribe concurrently with the fan-out, pre-emption at every lock / queue operation
-        nseeds = 400 if tier == "thorough" else 40
+        nseeds = 400 if T else 40
         base = rng.randrange(1 << 20)
         for k in range(nseeds):
             v = concurrent_unsub(base + k)
@@ -314,6 +1180,10 @@ class C08(Prop):
                 viol.append(v)
                 break
         ev["coverage"]["concurrent_unsub_schedules"] = nseeds
+        ev["coverage"]["session_trace_disagreements"] = len(dis)
+        if dis and not viol:
+            # model and code differ on a recorded session although the oracle accepts the session: correspondence broken
+            raise RuntimeError("session correspondence: " + dis[0][:2500])
         return viol[:5]
 
 
